@@ -506,6 +506,156 @@ def run_natural(text, opts, pre, keep=False):
     return status, et, state
 
 
+# ---------------------------------------------------------------------------------------------------------------
+# refused requests: every refusal that main.py's own text documents for the argument stage (the argparse `choices=` /
+# `type=` declarations of build_main_parser, the raise statements of check_files and check_options), crossed with the
+# --ff values.  The oracle reads the request only: a request that contains one of these combinations must end in an
+# exception / non-zero exit and the bytes (and mtime) at the output path must be what they were before the run.
+REFUSAL_EXTRAS = (
+    [], [], ["--nodebump"], ["--noopt"], ["--drop-water"], ["--keep-chain"], ["--whitespace"], ["--include-header"],
+    ["--ffout=AMBER"], ["--ffout=CHARMM"], ["--pdb-output=@DIR@/o.pdb"], ["--apbs-input=@DIR@/a.in"], ["--nodebump", "--noopt"],
+)
+
+
+def builtin_ff_file(name):
+    """text of a force-field data file shipped with the package (dat/<name>)"""
+    import pdb2pqr
+
+    return open(os.path.join(os.path.dirname(pdb2pqr.__file__), "dat", name), encoding="utf-8").read()
+
+
+def user_ff_text(ffname):
+    """a user force field compatible with --ff=<ffname>: the parameters of that force field under a user's header"""
+    return f"# user-supplied parameter file (parameters of {ffname})\n" + builtin_ff_file(f"{ffname}.DAT")
+
+
+def refused_requests_cases(rng):
+    """(refusal, clause of main.py it comes from, options, {auxiliary file: text}) for every documented refusal x --ff"""
+    cases = []
+    ffs = [None, *c01.FFS]  # None = --ff left at its default
+
+    def ffopt(ff):
+        return [] if ff is None else [f"--ff={ff}"]
+
+    for ff in ffs:
+        own = ff or "PARSE"
+        tag = ff or "default"
+        # check_files: "--usernames must be specified if using --userff" — user file compatible with the --ff given ...
+        cases.append((f"userff-without-usernames[{tag},user-ff={own}]", "check_files", [*ffopt(ff), "--userff=@DIR@/user.dat"], {"user.dat": user_ff_text(own)}))
+        # ... and a user file of another family
+        other = rng.choice([f for f in c01.FFS if f != own])
+        cases.append((f"userff-without-usernames[{tag},user-ff={other}]", "check_files", [*ffopt(ff), "--userff=@DIR@/user.dat"], {"user.dat": user_ff_text(other)}))
+        # check_files: "User-provided names file does not exist" (alone, and next to a usable --userff)
+        cases.append((f"usernames-file-missing[{tag}]", "check_files", [*ffopt(ff), "--usernames=@DIR@/nope.names"], {}))
+        cases.append((f"usernames-file-missing[{tag},with-userff]", "check_files", [*ffopt(ff), "--userff=@DIR@/user.dat", "--usernames=@DIR@/nope.names"], {"user.dat": user_ff_text(own)}))
+        # check_files: "User-provided forcefield file does not exist" (with and without a usable --usernames)
+        cases.append((f"userff-file-missing[{tag}]", "check_files", [*ffopt(ff), "--userff=@DIR@/nope.dat"], {}))
+        cases.append((f"userff-file-missing[{tag},with-usernames]", "check_files", [*ffopt(ff), "--userff=@DIR@/nope.dat", "--usernames=@DIR@/user.names"], {"user.names": builtin_ff_file(f"{own}.names")}))
+        # check_files: "Unable to find ligand file"
+        cases.append((f"ligand-file-missing[{tag}]", "check_files", [*ffopt(ff), "--ligand=@DIR@/nope.mol2"], {}))
+        cases.append((f"ligand-file-missing[{tag},with-userff]", "check_files", [*ffopt(ff), "--userff=@DIR@/user.dat", "--usernames=@DIR@/user.names", "--ligand=@DIR@/nope.mol2"], {"user.dat": user_ff_text(own), "user.names": builtin_ff_file(f"{own}.names")}))
+        # check_options: "Specified pH is outside the range" (args.ph < 0 or args.ph > 14), with and without a titration method
+        ph = rng.choice(["-0.01", "-1", "-7", "14.01", "15", "1e3", "inf", "-inf"])
+        cases.append((f"ph-out-of-range[{tag},{ph}]", "check_options", [*ffopt(ff), f"--with-ph={ph}", *rng.choice([[], ["--titration-state-method=propka"]])], {}))
+        # check_options: "--neutraln / --neutralc option only works with PARSE forcefield!"
+        if own != "PARSE":
+            for o in ("--neutraln", "--neutralc"):
+                cases.append((f"{o[2:]}-without-parse[{tag}]", "check_options", [*ffopt(ff), o], {}))
+            o = rng.choice(["--neutraln", "--neutralc"])
+            cases.append((f"{o[2:]}-without-parse[{tag},with-userff]", "check_options", [*ffopt(ff), o, "--userff=@DIR@/user.dat", "--usernames=@DIR@/user.names"], {"user.dat": user_ff_text(own), "user.names": builtin_ff_file(f"{own}.names")}))
+        # build_main_parser: values outside the declared choices / types
+        bad = rng.choice([["--ffout=NOSUCHFF"], ["--titration-state-method=pdb2pka"], ["--with-ph=seven"], ["--with-ph="], ["--no-such-option"]])
+        cases.append((f"argparse[{tag},{bad[0]}]", "build_main_parser", [*ffopt(ff), *bad], {}))
+    for bad in (["--ff=NOSUCHFF"], ["--ff="], ["--ff=AMBER", "--ff=NOSUCHFF"], ["--ff=NOSUCHFF", "--userff=@DIR@/user.dat", "--usernames=@DIR@/user.names"]):
+        files = {"user.dat": user_ff_text("AMBER"), "user.names": builtin_ff_file("AMBER.names")} if len(bad) == 3 else {}
+        cases.append((f"argparse[{' '.join(b.replace('@DIR@/', '') for b in bad)}]", "build_main_parser", bad, files))
+    return cases
+
+
+def run_request(text, opts, files, pre):
+    """one command-line request (options, input file, auxiliary files, state of the output path) through the real
+    parser and main_driver -> (status, exception type, state of the output path compared byte for byte with before)"""
+    import contextlib
+    import io as _io
+    import shutil
+
+    from pdb2pqr.main import build_main_parser, main_driver
+
+    G.quiet()
+    d = tempfile.mkdtemp(prefix="c12r_")
+    inp, out = os.path.join(d, "in.pdb"), os.path.join(d, "out.pqr")
+    open(inp, "w").write(text)
+    for fn, content in files.items():
+        with open(os.path.join(d, fn), "w", encoding="utf-8") as f:
+            f.write(content)
+    sentinel = b"SENTINEL previous content\n"
+    if pre:
+        open(out, "wb").write(sentinel)
+        os.utime(out, (1_000_000_000, 1_000_000_000))
+    status, et = "ok", None
+    try:
+        with contextlib.redirect_stderr(_io.StringIO()), contextlib.redirect_stdout(_io.StringIO()):
+            try:
+                args = build_main_parser().parse_args([*[o.replace("@DIR@", d) for o in opts], "--log-level=CRITICAL", inp, out])
+                main_driver(args)
+            except SystemExit as e:
+                code = e.code
+                status, et = ("raised", f"SystemExit({code})") if code not in (0, None) else ("ok", "SystemExit(0)")
+            except Exception as e:  # noqa: BLE001
+                status, et = "raised", type(e).__name__
+        if not os.path.exists(out):
+            state = "absent"
+        else:
+            content = open(out, "rb").read()
+            if pre and content == sentinel and int(os.stat(out).st_mtime) == 1_000_000_000:
+                state = "untouched"
+            elif content == b"":
+                state = "truncated" if pre else "created-empty"
+            else:
+                state = "overwritten" if pre else "created"
+    finally:
+        shutil.rmtree(d, ignore_errors=True)
+    return status, et, state
+
+
+def refused_problem(status, state, pre):
+    problems = []
+    if status != "raised":
+        problems.append("no-error")
+    if (pre and state != "untouched") or (not pre and state != "absent"):
+        problems.append(f"output-{state}")
+    return "+".join(problems) if problems else None
+
+
+def refused_requests(ctx: Ctx):
+    """unusable option / file combinations: each must be refused, with the output path byte-identical to before"""
+    rng = ctx.rng
+    _f, res = G.window(rng, rng.choice([3, 4]))
+    G.set_chain(res, "A", 1)
+    text = G.to_pdb([res])
+    seen = set()
+    for name, clause, opts, files in refused_requests_cases(rng):
+        opts = [*opts, *rng.choice(REFUSAL_EXTRAS)]
+        kind = name.split("[")[0]
+        for pre in (False, True):
+            status, et, state = run_request(text, opts, files, pre)
+            ctx.evaluations += 1
+            ctx.distinct.add(("refused", name, pre))
+            ctx.count("refused-requests", f"{clause}:{kind}:{status}/{state}")
+            problem = refused_problem(status, state, pre)
+            if problem:
+                sig = {"side": "failure", "trigger": "refused-request", "refusal": kind, "clause": clause, "problem": problem}
+                k = tuple(sig.items())
+                if k not in seen:
+                    seen.add(k)
+                    ctx.violate(
+                        sig,
+                        f"{name} (options {' '.join(opts)}; output {'pre-existing' if pre else 'absent'}): {clause} documents a refusal, run {status} ({et}), output path {state}",
+                        {"pdb": text, "options": opts, "files": files, "trigger": "refused-request", "refusal": name, "preexisting": pre},
+                    )
+    ctx.sample({"refused_request_kinds": sorted({k.split(":")[1] for k in ctx.distribution.get("refused-requests", {})})})
+
+
 def success_side(ctx: Ctx, n):
     rng = ctx.rng
     seen = set()
@@ -610,7 +760,9 @@ def run(ctx: Ctx):
     ctx.extra["rule"] = (
         "fault injection: every stage of the generated main_driver / non_trivial skeleton x {ValueError, RuntimeError} x output path {absent, pre-existing}; natural failures (11 triggers x 2 path states); "
         "charge guard: noninteger_charge vs the model on charges with every kind of fractional part; hydrogen-free peptides under --assign-only and CA traces (totals that cannot be integral): fail and leave the path alone, or write an integral total; "
-        "PARSE with --neutralc / --neutraln and each residue type at the neutralised end; success side: complete peptide windows with each of the 20 residue types forced in turn x six force fields; a case is (stage, exception, path state) / (trigger, path state) / (ff, first, last residue); distinct counts distinct tuples"
+        "PARSE with --neutralc / --neutraln and each residue type at the neutralised end; success side: complete peptide windows with each of the 20 residue types forced in turn x six force fields; a case is (stage, exception, path state) / (trigger, path state) / (ff, first, last residue); distinct counts distinct tuples; "
+        "refused requests: every refusal in the text of build_main_parser (choices / types), check_files (--userff without --usernames with a user file compatible with the --ff given and one of another family, "
+        "missing --usernames / --userff / --ligand file) and check_options (pH outside [0, 14], --neutraln / --neutralc without PARSE) x {--ff omitted, six --ff values} x output path {absent, pre-existing}: the run must raise / exit non-zero and the output path must be byte-identical to before"
     )
     fault_injection(ctx, ctx.scale(1, 6))
     natural_failures(ctx)
@@ -620,6 +772,8 @@ def run(ctx: Ctx):
     non_integral_totals(ctx, ctx.scale(12, 400))
     success_side(ctx, ctx.scale(20, 600))
     neutral_termini_side(ctx, ctx.scale(40, 400))
+    # (last, so that the inputs drawn by the streams above stay what they were)
+    refused_requests(ctx)
 
 
 def replay(ctx: Ctx, data: dict) -> bool:
@@ -630,6 +784,10 @@ def replay(ctx: Ctx, data: dict) -> bool:
         exc = getattr(builtins, rp["exception"])
         print(run_with_fault(rp["pdb"], rp["options"], rp["stage"], exc, rp["preexisting"])[:4])
         return True
+    if rp.get("trigger") == "refused-request":
+        status, et, state = run_request(rp["pdb"], rp["options"], rp.get("files", {}), rp["preexisting"])
+        print("refused request", rp.get("refusal"), "->", status, et, "output path", state)
+        return refused_problem(status, state, rp["preexisting"]) is not None
     r = G.run_pipeline(rp["pdb"], rp["options"])
     print("status:", r.status, r.exc)
     return r.status != "ok" if "trigger" not in rp else r.status == "ok"
